@@ -69,7 +69,9 @@ CHECKS['C16'] = dict(
           'termination date is not moved by adjustment, with a kernel-checked counterexample for the full statement '
           '(known finding C16/regenerate-reanchors); the last date is the termination date, adjusted iff requested; the '
           'result is exactly the distinct dates of effective :: adjusted whole-period rolls ++ [termination] (no date lost, '
-          'none invented: generate_no_loss, body_backward_interior, body_forward_interior). The '
+          'none invented: generate_no_loss, body_backward_interior, body_forward_interior); termination for the model of '
+          'the code: with period >= 1 month the BACKWARD and FORWARD loops need at most (month span + 3) iterations, so the '
+          'model fuel of 5000 is never the reason for a failure for schedules up to 416 years (Props/C16c). The '
           'CDS premium-leg generator is modelled separately (Core/CDSAlgo): unadjusted dates are whole multiples of the '
           'period from the anchor, every payment date is the adjustment of such a roll (none lost), the last is the '
           'adjusted maturity, accrual periods chain. Tie: exact date-by-date correspondence implementation = model on '
